@@ -4,8 +4,8 @@
   `is_within_grace_period`, resolved through the `impl ChronyOperations` parameter by the value's type),
   `get_phc_error_bound_from_path`, `Default for ClockErrorBoundPoller`, `run`.
 
-  `iteration_eq`: ONE iteration of the loop body, found in the function by `Rs.findWhile`, started in the
-  loop state with poller state `s` (`pollerLoopSt`), for ALL inputs: the reading `coarse` of
+  `iteration_eq`: ONE TURN of the loop, found in the function by `Rs.findLoop` (a `while` or a `loop`), started in
+  the loop-top state with poller state `s` (`topP`: computed by the interpreter, `Rs/EmbedLoop.lean`), for ALL inputs: the reading `coarse` of
   `clock_gettime_safe(CLOCK_MONOTONIC)`, the outcome `reply` of `blocking_query_uds` (Err / a reply whose
   body is any other variant / Tracking t), the `Instant` readings `tReply`, `tGrace`, the configured PHC
   reference `refid` and the state `file` of its sysfs file (an unreadable one failing at `open` or at
@@ -14,8 +14,8 @@
   are EXACTLY the model's `pollTrace s coarse reply tReply tGrace phc` (clock read of id 6 =
   CLOCK_MONOTONIC_COARSE, query with request `Tracking`, `Instant` reads, sysfs read with its path, the send
   to `ChannelId::ShmWriter` with the message, the wait with the sleep time), one input is consumed per event,
-  the new `last_tracking_data` is `(pollStep ..).1.lastGood`, `keep_running` is false iff the mailbox
-  returned `Ok(ThreadAbort)`, all other variables are unchanged; where the model's message is `panic`
+  the new `last_tracking_data` is `(pollStep ..).1.lastGood`, the loop is over iff the mailbox
+  returned `Ok(ThreadAbort)` and otherwise goes on from the top state with the new poller state; where the model's message is `panic`
   (`expect` on an unparsable / out-of-range sysfs value) the thread panics.
   `default_eq` (`Poller.init`), `grace_eq` (`withinGrace`, strict `<` 5 s).
   `iteration_send_fails`: the same iteration with `send` returning `Err`: the thread panics.
@@ -45,19 +45,34 @@ abbrev frP : Frame := ⟨"chrony_poller", "", "()"⟩
 /-- `phc_info` with the state of its file during this iteration (`PollIter.phc` of the model) -/
 abbrev phcOf (refid : Option Nat) (file : PhcFile) : Option PhcCfg := refid.map fun r => ⟨r, file⟩
 
+/-- the state at the top of the loop of `run_clock_error_bound_poller` (however the loop is written), with poller
+    state `s`, event log `log` and `pos` inputs consumed: computed by the interpreter from the arguments and the
+    statements `pre` before the loop (`Rs.topSt`) -/
+abbrev topP (nowNs : Int) (inp : Nat → Value) (pre : List Stmt) (e : IterEnv) (s : PollerState) (refid : Option Nat)
+    (log : List Value) (pos : Nat) : St :=
+  topSt (ctxP nowNs inp) Code.fn_chrony_poller__run_clock_error_bound_poller (pollerArgs e s refid) pre log pos
+
+/-- ONE TURN of the loop (`Rs.findLoop`: a `while` or a `loop`, whatever precedes it), see the header: panic where
+    the model's message is `panic`; else the loop is over (`done`) when `recv_timeout` returned `Ok(ThreadAbort)`, and
+    otherwise goes on (`next`) from the top state with the model's new poller state — in both cases with the events
+    of `pollTrace` appended to the log and one input consumed per event -/
 theorem iteration_eq (e : IterEnv) (s : PollerState) (coarse : TimeSpec) (reply : ReplyKind) (tReply tGrace : Int)
     (refid : Option Nat) (file : PhcFile) (nowNs : Int) (inp : Nat → Value) (log : List Value) (pos : Nat)
-    (c : Expr) (body : List Stmt)
-    (hfw : findWhile Code.fn_chrony_poller__run_clock_error_bound_poller.body = some (c, body))
+    (pre : List Stmt) (c : Expr) (body : List Stmt)
+    (hfl : findLoop Code.fn_chrony_poller__run_clock_error_bound_poller.body = some (pre, c, body))
     (hother : e.other ≠ "ReplyBody::Tracking") (hsend : e.sendRes = okUnit)
     (hin : inputsAt inp pos ((pollTrace s coarse reply tReply tGrace (phcOf refid file)).map (pollEvInput e)))
-    (N : Nat) (hN : 60 ≤ N) (next : St → Res) :
-    ((evalBlock N (ctxP nowNs inp) frP body (pollerLoopSt e true s refid log pos)).popTo 5).loopNext next
-    = if (pollStep s coarse reply tReply tGrace (phcOf refid file)).2 = .panic then .panic
-      else next (pollerLoopSt e (!e.isAbort) (pollStep s coarse reply tReply tGrace (phcOf refid file)).1 refid
-        (log ++ (pollTrace s coarse reply tReply tGrace (phcOf refid file)).map (pollEvValue e))
-        (pos + (pollTrace s coarse reply tReply tGrace (phcOf refid file)).length)) :=
-  PollerProof.iteration e s coarse reply tReply tGrace refid file nowNs inp log pos c body hfw hother hsend hin N hN next
+    (K : Nat) (hK : 60 ≤ K) :
+    turnIs (ctxP nowNs inp) frP c body K
+      (evalWhile (K + 2) (ctxP nowNs inp) frP c body (topP nowNs inp pre e s refid log pos))
+      (if (pollStep s coarse reply tReply tGrace (phcOf refid file)).2 = .panic then .panic
+       else if e.isAbort = true then
+         .done (log ++ (pollTrace s coarse reply tReply tGrace (phcOf refid file)).map (pollEvValue e))
+           (pos + (pollTrace s coarse reply tReply tGrace (phcOf refid file)).length)
+       else .next (topP nowNs inp pre e (pollStep s coarse reply tReply tGrace (phcOf refid file)).1 refid
+          (log ++ (pollTrace s coarse reply tReply tGrace (phcOf refid file)).map (pollEvValue e))
+          (pos + (pollTrace s coarse reply tReply tGrace (phcOf refid file)).length))) :=
+  PollerProof.iteration e s coarse reply tReply tGrace refid file nowNs inp log pos pre c body hfl hother hsend hin K hK
 
 /-- `impl Default for ClockErrorBoundPoller` = the model's `Poller.init`: `Instant::now()` (the input `tStart`,
     logged) minus the 5 s of `CHRONY_RESTART_GRACE_PERIOD`; the `unwrap` panics exactly when `checked_sub` leaves
@@ -81,27 +96,30 @@ example : (PollerState.mk 1000).withinGrace (1000 + 5000000000) = false ∧
     (PollerState.mk 1000).withinGrace (1000 + 4999999999) = true := by decide
 
 /-- a failed send (`Err(_)`: the ShmWriter's end of the channel is gone) panics ("Broken channel to ShmWriter"),
-    whatever the iteration was -/
+    whatever the turn was -/
 theorem iteration_send_fails (e : IterEnv) (s : PollerState) (coarse : TimeSpec) (reply : ReplyKind) (tReply tGrace : Int)
     (refid : Option Nat) (file : PhcFile) (x : Value) (nowNs : Int) (inp : Nat → Value) (log : List Value) (pos : Nat)
-    (c : Expr) (body : List Stmt)
-    (hfw : findWhile Code.fn_chrony_poller__run_clock_error_bound_poller.body = some (c, body))
+    (pre : List Stmt) (c : Expr) (body : List Stmt)
+    (hfl : findLoop Code.fn_chrony_poller__run_clock_error_bound_poller.body = some (pre, c, body))
     (hother : e.other ≠ "ReplyBody::Tracking") (hsend : e.sendRes = .enumv "Err" [x])
     (hin : inputsAt inp pos ((pollTrace s coarse reply tReply tGrace (phcOf refid file)).map (pollEvInput e)))
-    (N : Nat) (hN : 60 ≤ N) (next : St → Res) :
-    ((evalBlock N (ctxP nowNs inp) frP body (pollerLoopSt e true s refid log pos)).popTo 5).loopNext next = .panic :=
-  PollerProof.send_fails e s coarse reply tReply tGrace refid file x nowNs inp log pos c body hfw hother hsend hin N hN next
+    (K : Nat) (hK : 60 ≤ K) :
+    evalWhile (K + 2) (ctxP nowNs inp) frP c body (topP nowNs inp pre e s refid log pos) = .panic :=
+  PollerProof.send_fails e s coarse reply tReply tGrace refid file x nowNs inp log pos pre c body hfl hother hsend hin K hK
 
 /-- a failed read of the monotonic clock: logged, chronyd is not asked, NOTHING is sent, the poller state is
-    unchanged, the thread waits on its mailbox as in every iteration -/
+    unchanged, the thread waits on its mailbox as in every turn -/
 theorem iteration_clock_fails (e : IterEnv) (s : PollerState) (refid : Option Nat) (x : Value) (nowNs : Int)
-    (inp : Nat → Value) (log : List Value) (pos : Nat) (c : Expr) (body : List Stmt)
-    (hfw : findWhile Code.fn_chrony_poller__run_clock_error_bound_poller.body = some (c, body))
-    (hin : inputsAt inp pos [.enumv "Err" [x], e.recvRes]) (N : Nat) (hN : 60 ≤ N) (next : St → Res) :
-    ((evalBlock N (ctxP nowNs inp) frP body (pollerLoopSt e true s refid log pos)).popTo 5).loopNext next
-    = next (pollerLoopSt e (!e.isAbort) s refid
-        (log ++ [evClockRead (clockId 6) (.enumv "Err" [x]), evWait (.duration e.sleepNs)]) (pos + 2)) :=
-  PollerProof.clock_fails e s refid x nowNs inp log pos c body hfw hin N hN next
+    (inp : Nat → Value) (log : List Value) (pos : Nat) (pre : List Stmt) (c : Expr) (body : List Stmt)
+    (hfl : findLoop Code.fn_chrony_poller__run_clock_error_bound_poller.body = some (pre, c, body))
+    (hin : inputsAt inp pos [.enumv "Err" [x], e.recvRes]) (K : Nat) (hK : 60 ≤ K) :
+    turnIs (ctxP nowNs inp) frP c body K
+      (evalWhile (K + 2) (ctxP nowNs inp) frP c body (topP nowNs inp pre e s refid log pos))
+      (if e.isAbort = true then
+         .done (log ++ [evClockRead (clockId 6) (.enumv "Err" [x]), evWait (.duration e.sleepNs)]) (pos + 2)
+       else .next (topP nowNs inp pre e s refid
+         (log ++ [evClockRead (clockId 6) (.enumv "Err" [x]), evWait (.duration e.sleepNs)]) (pos + 2))) :=
+  PollerProof.clock_fails e s refid x nowNs inp log pos pre c body hfl hin K hK
 
 /-- the whole loop: see the header.  `e0` carries the sysfs path and the sleep time of the run -/
 theorem loop_eq (nowNs : Int) (inp : Nat → Value) (refid : Option Nat) (e0 : IterEnv) (last : IterIn)
@@ -160,9 +178,9 @@ example :
     e1.isAbort = false ∧ e2.isAbort = true := by
   decide
 
-/-- the loop is there: `findWhile` finds it, its condition is the variable `keep_running` -/
-theorem loop_found : ∃ body, findWhile Code.fn_chrony_poller__run_clock_error_bound_poller.body
-    = some (.path ["keep_running"], body) := by
+/-- the loop is there: `findLoop` finds it -/
+theorem loop_found : ∃ pre c body, findLoop Code.fn_chrony_poller__run_clock_error_bound_poller.body
+    = some (pre, c, body) := by
   simp [rs_eval, rs_code]
 
 /-- the clock reads and the query of an iteration, as the model's `ReadAction`s, start with `pollerReads` -/
